@@ -274,9 +274,10 @@ def erun (loops : Bool) (s : EState) : List EEvent → Option EState
   | [] => some s
   | e :: es => (estep loops s e).bind fun s' => erun loops s' es
 
-/-- reset() events -/
+/-- the events of reset() up to and including the store that clears the flag (its final unlock
+does not change the flag any more) -/
 def EEvent.isReset : EEvent → Bool
-  | .rLock | .rStore | .rUnlock => true
+  | .rLock | .rStore => true
   | _ => false
 
 /-- events that continue a call in progress -/
